@@ -9,6 +9,7 @@ import random
 import time
 
 from . import c01_detached as cdet
+from . import c01_gen as cgen
 from . import c01_graph as cg
 from . import c01_oracle as co
 from . import common, e2, e3, e3_gen
@@ -20,7 +21,9 @@ RULE = ("E3 differential oracle: seeded generator of projects (static files, sta
         "globs with one step per match, chains / diamonds, multiple and volatile outputs, env vars, optional "
         "steps, resources, script steps that amend inputs / outputs / env, sub-plans with hold/release) and "
         "histories of 1-6 phases of edits (change / add / delete a source; drop, re-add, redefine or add "
-        "steps, declarations and sub-plans; change or unset an env var), each phase followed by a build by the "
+        "steps, declarations and sub-plans; change or unset an env var; change ALL tracked variables or all "
+        "source inputs (same size) of one step in one phase and put a SUBSET back in a later phase -- steps "
+        "track up to 3 declared and / or amended variables), each phase followed by a build by the "
         "real serve() (restart flavour; a share in watch flavour and a share with njob=3 under a seeded "
         "completion order); the final incremental result is compared with a from-scratch build of the final "
         "sources: return-code class, the active plan-defined part of the canonical graph (steps, files, "
@@ -210,7 +213,70 @@ def guard_cases() -> dict:
         out["child-completes-detached:" + name] = co.case_json(p, [
             {"edits": e1, "build": {"njob": 3, "schedule": {"order": ["g1", "end:./p1.py", "end:S"], "policy": "fifo"}}},
             {"edits": e2_}])
+    # SEVERAL tracked variables of one step change in one restart, a SUBSET goes back to the
+    # earlier values in a later restart (the others keep the new ones): declared variables of a
+    # plain step, amended variables of a script step, one of each; 2 and 3 variables; a variable
+    # that is unset at first
+    def setenv(vals):
+        return {"edits": [{"op": "setenv", "name": n, "value": v} for n, v in sorted(vals.items())]}
+
+    def env_project(kind, names, env0):
+        gets = [{"op": "getenv", "name": n} for n in names]
+        if kind == "declared":
+            label = "S " + " ".join("$" + n for n in names)
+            plan = [{"op": "step", "label": label, "env": list(names), "out": ["s.txt"]}]
+            prog = {"scripts": {"plan.py": plan}, "commands": {label: gets + [{"op": "auto"}]}}
+        else:
+            declared = list(names[:1]) if kind == "mixed" else []
+            amended = [n for n in names if n not in declared]
+            plan = [{"op": "static", "paths": ["w.py"]},
+                    {"op": "run", "label": "./w.py", "env": declared, "out": ["s.txt"]}]
+            prog = {"scripts": {"plan.py": plan, "w.py": [{"op": "amend", "env": amended}] + gets + [{"op": "auto"}]},
+                    "commands": {}}
+        return e3.Project(sources={}, program=prog, env=dict(env0))
+    for kind in ("declared", "amended", "mixed"):
+        for names, back in ((["VA", "VB"], ["VA"]), (["VA", "VB"], ["VB"]),
+                            (["VA", "VB", "VC"], ["VA", "VB"]), (["VA", "VB", "VC"], ["VB"]),
+                            (["VA", "VB", "VC"], ["VC"])):
+            env1 = {n: n.lower() + "1" for n in names}
+            env2 = {n: n.lower() + "2" for n in names}
+            out[f"env-subset-revert:{kind}:{len(names)}:back-{'+'.join(back)}"] = co.case_json(
+                env_project(kind, names, env1), [setenv(env2), setenv({n: env1[n] for n in back})])
+        # VA is unset at first, set together with a change of VB, then unset again
+        out[f"env-subset-revert:{kind}:unset-set-unset"] = co.case_json(
+            env_project(kind, ["VA", "VB"], {"VB": "vb1"}),
+            [setenv({"VA": "va2", "VB": "vb2"}), {"edits": []}, setenv({"VA": None})])
+    # the same for the source files of one step: all change (same size), a subset goes back
+    srcs = {"a.txt": "a1\n", "b.txt": "b1\n", "c.txt": "c1\n"}
+    plan = [{"op": "static", "paths": sorted(srcs)},
+            {"op": "step", "label": "cat", "inp": sorted(srcs), "out": ["abc.txt"]},
+            {"op": "step", "label": "use", "inp": ["abc.txt"], "out": ["use.txt"]}]
+    for back in (["a.txt"], ["b.txt", "c.txt"]):
+        for flavour in ("restart", "watch"):
+            p = e3.Project(sources=dict(srcs), program={"scripts": {"plan.py": plan}, "commands": {}})
+            out[f"src-subset-revert:{flavour}:back-{'+'.join(back)}"] = co.case_json(p, [
+                {"edits": [{"op": "write", "path": q, "content": q[0] + "2\n"} for q in sorted(srcs)]},
+                {"edits": [{"op": "write", "path": q, "content": srcs[q]} for q in back]}], flavour)
     return out
+
+
+def _run_named(item):
+    """Worker: one fixed witness or guard case (a watch-flavour case falls back to restart when
+    no inotify instance is available)."""
+    what, name, case = item
+    try:
+        try:
+            r = co.run_case(case)
+        except (e3.E3Error, OSError):
+            if case.get("flavour") != "watch":
+                raise
+            r = co.run_case(dict(case, flavour="restart"))
+    except (e3.E3Error, OSError) as exc:
+        return {"error": f"{type(exc).__name__}: {str(exc)[:300]}", "sigs": {}, "rc": None}
+    trig = co.edit_kinds(e3.Project.from_json(case["project"]), case["history"]) if what == "guard" else None
+    sigs = co.signatures(r["inc"], r["scr"], r["diffs"], trig, r["results"][:-1])
+    return {"error": None, "rc": [r["inc"].returncode, r["scr"].returncode],
+            "sigs": {k: [[d["kind"], d["key"], d["a"], d["b"]] for d in v] for k, v in sigs.items()}}
 
 
 def _run_detached(i_seed):
@@ -233,6 +299,37 @@ def _run_detached(i_seed):
     return out
 
 
+def _subset_case(seed, i):
+    proj, hist, desc = cgen.gen_subset_case(random.Random(f"c01-subset-{seed}-{i}"))
+    # source-only histories also run in the watch flavour (a running director cannot see a
+    # changed environment); the caller falls back to restart when no inotify instance is free
+    flavour = "watch" if desc["what"] == "src" and i % 2 == 0 else "restart"
+    return co.case_json(proj, hist, flavour), desc
+
+
+def _run_subset(i_seed):
+    """Worker: one history of the family 'change several things of one step, revert a subset'."""
+    i, seed = i_seed
+    case, desc = _subset_case(seed, i)
+    out = {"i": i, "desc": desc, "sigs": {}, "error": None}
+    try:
+        try:
+            r = co.run_case(case)
+        except (e3.E3Error, OSError):
+            if case["flavour"] != "watch":
+                raise
+            r = co.run_case(dict(case, flavour="restart"))
+    except (e3.E3Error, OSError) as exc:
+        out["error"] = f"{type(exc).__name__}: {str(exc)[:300]}"
+        return out
+    sigs = co.signatures(r["inc"], r["scr"], r["diffs"], None, r["results"][:-1])
+    out["sigs"] = {k: [[d["kind"], d["key"], d["a"], d["b"]] for d in v[:6]] for k, v in sigs.items()}
+    out["rc"] = [x.returncode for x in r["results"]] + [r["scr"].returncode]
+    out["executed"] = [len(x.commands) for x in r["results"]]
+    out["size"] = co.case_size(case)
+    return out
+
+
 def _item_seed(ctx, i):
     return int.from_bytes(hashlib.sha1(f"C01-{ctx.seed}-{i}".encode()).digest()[:4], "big")
 
@@ -246,11 +343,18 @@ def _gen_item(seed: int, i: int) -> dict:
         flavour, build = "restart", {"njob": 3, "schedule": {"seed": r.randrange(1000)}}
     else:
         flavour, build = "restart", {}
-    return {"seed": seed, "i": i, "flavour": flavour, "build": build}
+    # half of the histories come from the widened generator (c01_gen: steps tracking 2-3
+    # variables, several changes of one step in one phase, subset reverts later)
+    gen = "wide" if r.random() < 0.5 else "base"
+    return {"seed": seed, "i": i, "flavour": flavour, "build": build, "gen": gen}
+
+
+def _gen_of(item: dict):
+    return cgen.gen_case if item.get("gen") == "wide" else e3_gen.gen_case
 
 
 def _case_of_item(item: dict) -> dict:
-    proj, hist = e3_gen.gen_case(item["seed"], None, watch_safe=item["flavour"] == "watch")
+    proj, hist = _gen_of(item)(item["seed"], None, watch_safe=item["flavour"] == "watch")
     return co.case_json(proj, hist, item["flavour"], item["build"])
 
 
@@ -258,7 +362,7 @@ def _run_item(item: dict) -> dict:
     """Worker: one generated history; returns a small JSON-able verdict."""
     t0 = time.time()
     stats = e3_gen.Stats()
-    proj, hist = e3_gen.gen_case(item["seed"], stats, watch_safe=item["flavour"] == "watch")
+    proj, hist = _gen_of(item)(item["seed"], stats, watch_safe=item["flavour"] == "watch")
     case = co.case_json(proj, hist, item["flavour"], item["build"])
     out = {"item": item, "phases": len(hist), "stats": stats.to_json(), "sigs": {}, "error": None}
     try:
@@ -317,29 +421,22 @@ def oracle(ctx, n_override=None):
                         f"real Workflow after the D9 history: env_var rows of step S are "
                         f"{cg.env_names(tr[-1][3], 'S')} incrementally and {cg.env_names(scr[-1][3], 'S')} from scratch",
                         witness={"ops": [list(map(str, t[:2])) for t in tr]})
-    # (2) end to end: fixed minimal witnesses through the real serve()
+    # (2) end to end: fixed minimal witnesses and guard cases through the real serve()
     reported = set()
-    for sig, case in fixed_cases().items():
-        r = co.run_case(case)
-        sigs = co.signatures(r["inc"], r["scr"], r["diffs"], None, r["results"][:-1])
-        ctx.case(("fixed-e3", sig), nontrivial=True)
-        ctx.count("fixed_witness_runs")
-        for s2, diffs in sigs.items():
+    named = [("fixed", sig, case) for sig, case in fixed_cases().items()] + \
+            [("guard", name, case) for name, case in guard_cases().items()]
+    for (what, name, case), res in zip(named, e3.pool_map(_run_named, named, nproc=ctx.scale(10, 12))):
+        ctx.case(("fixed-e3" if what == "fixed" else "guard", name), nontrivial=True)
+        ctx.count("fixed_witness_runs" if what == "fixed" else "guard_case_runs")
+        if res["error"]:
+            ctx.add_failure("oracle", "harness", "C01:harness-error:" + res["error"].split(":")[0],
+                            f"E3 could not run the {what} case {name}: {res['error']}", witness={"case": case})
+            continue
+        for s2, diffs in res["sigs"].items():
             if s2 not in reported:
                 reported.add(s2)
-                _report(ctx, s2, case, [[d["kind"], d["key"], d["a"], d["b"]] for d in diffs],
-                        f"fixed witness of {sig}; return codes {r['inc'].returncode} / {r['scr'].returncode}")
-    for name, case in guard_cases().items():
-        r = co.run_case(case)
-        sigs = co.signatures(r["inc"], r["scr"], r["diffs"], co.edit_kinds(
-            e3.Project.from_json(case["project"]), case["history"]), r["results"][:-1])
-        ctx.case(("guard", name), nontrivial=True)
-        ctx.count("guard_case_runs")
-        for s2, diffs in sigs.items():
-            if s2 not in reported:
-                reported.add(s2)
-                _report(ctx, s2, case, [[d["kind"], d["key"], d["a"], d["b"]] for d in diffs],
-                        f"guard case {name}; return codes {r['inc'].returncode} / {r['scr'].returncode}")
+                _report(ctx, s2, case, diffs, (f"fixed witness of {name}" if what == "fixed" else f"guard case {name}")
+                        + f"; return codes {res['rc'][0]} / {res['rc'][1]}")
     # (2b) generated histories with completions and changes while a step is detached
     nd = ctx.scale(40, 500)
     dres = e3.pool_map(_run_detached, [(i, ctx.seed) for i in range(nd)], nproc=ctx.scale(10, 12))
@@ -372,6 +469,40 @@ def oracle(ctx, n_override=None):
         reported.add(sig)
         _report(ctx, sig2, case, diffs, f"detached-family case {i} ({desc['mode']}, {desc['between']}), "
                 f"{len(lst)} case(s) with this signature")
+    # (2c) generated histories 'several variables / source inputs of one step change in one phase,
+    #      a subset goes back in a later phase' (steps tracking 2-3 variables, declared / amended)
+    ns = ctx.scale(60, 800)
+    sres = e3.pool_map(_run_subset, [(i, ctx.seed) for i in range(ns)], nproc=ctx.scale(10, 12))
+    sby: dict = {}
+    for res in sres:
+        ctx.count("subset_family")
+        if res["error"]:
+            ctx.add_failure("oracle", "harness", "C01:harness-error:" + res["error"].split(":")[0],
+                            f"E3 could not run subset-revert case {res['i']}: {res['error']}",
+                            witness={"i": res["i"], "desc": res["desc"]})
+            continue
+        d = res["desc"]
+        ctx.count(f"subset:{d['what']}:{d['kind']}:declared{d['declared']}+amended{d['amended']}")
+        ctx.count("subset_reverted_proper" if d["reverted"] < d["changed"] else "subset_reverted_all")
+        # non-trivial: the multi-change phase and the revert phase both re-ran something
+        ctx.case(("subset", res["i"], json.dumps(d, sort_keys=True)),
+                 nontrivial=sum(1 for n in res["executed"][1:] if n > 0) >= 2)
+        for sig, diffs in res["sigs"].items():
+            ctx.count("sig:" + sig)
+            sby.setdefault(sig, []).append((res["size"], res["i"], diffs))
+    for sig, lst in sorted(sby.items()):
+        if sig in reported:
+            continue
+        lst.sort()
+        size, i, diffs = lst[0]
+        case, desc = _subset_case(ctx.seed, i)
+        sig2 = sig
+        if sig not in KNOWN_NAMED:
+            final = co.case_signatures(case, with_triggers=True)
+            sig2 = next((k for k in final if k.split(":after:")[0] == sig), sig)
+        reported.add(sig)
+        _report(ctx, sig2, case, diffs, f"subset-revert case {i} ({json.dumps(desc, sort_keys=True)}), "
+                f"{len(lst)} case(s) with this signature")
     # (3) generated histories
     n = n_override or ctx.scale(240, 4000)
     items = [_gen_item(_item_seed(ctx, i), i) for i in range(n)]
@@ -384,6 +515,7 @@ def oracle(ctx, n_override=None):
         it = res["item"]
         ctx.count("histories")
         ctx.count("flavour:" + it["flavour"] + (":njob3" if it["build"].get("njob") else ""))
+        ctx.count("generator:" + it.get("gen", "base"))
         if res.get("watch_fallback"):
             ctx.count("watch_fallback_to_restart")
         if res["error"]:
@@ -401,7 +533,8 @@ def oracle(ctx, n_override=None):
         for k, v in st["units"].items():
             ctx.count("unit:" + k, v)
         nontrivial = sum(res["executed"][1:]) > 0 and (res["skipped"] > 0 or res["kept"] > 0)
-        ctx.case(("gen", it["seed"], it["flavour"], json.dumps(it["build"], sort_keys=True)), nontrivial=nontrivial)
+        ctx.case(("gen", it["seed"], it.get("gen", "base"), it["flavour"], json.dumps(it["build"], sort_keys=True)),
+                 nontrivial=nontrivial)
         if not res["sigs"]:
             ctx.count("equivalent")
         for sig, diffs in res["sigs"].items():
